@@ -117,6 +117,16 @@ Proof.
   rewrite Hbg. rewrite R4 at 1. field. repeat split; assumption.
 Qed.
 
+Lemma dom_step_alg (ab aa ac X a3 : R) :
+  0 <= aa -> 0 <= ac -> 0 <= ab -> (aa + ac) * (1 + u) <= ab * (1 - u) ->
+  X >= ab - aa * (1 + u) -> 1 - u <= a3 -> ac * (1 + u) <= X * a3.
+Proof.
+  intros Ha Hc Hb D HX H3.
+  assert (L0 : 0 <= ab - aa * (1 + u)) by nra.
+  assert (P2 : (ab - aa * (1 + u)) * (1 - u) <= X * a3) by nra.
+  nra.
+Qed.
+
 End Bounds.
 
 (* ---------- the standard-model arithmetic and the backward-error theorem ---------- *)
@@ -160,19 +170,19 @@ Qed.
 Lemma eqb_false_nz (x : ARnd) : eqb x zero = false -> x <> 0.
 Proof. cbn. destruct (Req_EM_T x 0); [discriminate|auto]. Qed.
 
-Theorem thomas_backward_error_lemma (t : tridiag ARnd) (r x : list ARnd) :
-  wfT t -> (1 <= tn t)%nat -> length r = tn t -> tsolve t r = Ok x ->
-  length x = tn t /\
-  exists gl : list R, length gl = tn t /\
+Lemma backward_rows (t : tridiag ARnd) (r x bl gl yl : list ARnd) :
+  wfT t -> (1 <= tn t)%nat -> length r = tn t ->
+  length x = tn t -> length bl = tn t -> length gl = tn t -> length yl = tn t ->
+  fwd_rel t r (tn t) bl gl yl ->
+  nth (tn t - 1) x zero = nth (tn t - 1) yl zero ->
+  (forall i, (i + 1 < tn t)%nat -> nth i x zero = (nth i yl zero - nth (i + 1) gl zero * nth (i + 1) x zero)%A) ->
   forall i, (i < tn t)%nat -> exists ea eb ec eg,
     Rabs ea <= 3 * u /\ Rabs eb <= 5 * u /\ Rabs ec <= 5 * u /\ Rabs eg <= 9 * u /\
     nth i (0 :: tsub t) 0 * (1 + ea) * nth i (0 :: x) 0
     + (nth i (tmain t) 0 * (1 + eb) + nth i (0 :: tsub t) 0 * nth i gl 0 * eg) * nth i x 0
     + nth i (tsup t) 0 * (1 + ec) * nth (i + 1) x 0 = nth i r 0.
 Proof using u_range fsub_ok fmul_ok fdiv_ok.
-  intros W Hn Hr E. pose proof W as (Hm & Hs & Hp).
-  destruct (thomas_trace_lemma t r W Hn Hr x E) as (bl & gl & yl & Lx & Lb & Lg & Ly & Rel & Vlast & Vback).
-  split; [exact Lx|]. exists gl. split; [exact Lg|].
+  intros W Hn Hr Lx Lb Lg Ly Rel Vlast Vback. pose proof W as (Hm & Hs & Hp).
   destruct Rel as (B0 & Z0 & D0 & RelS).
   change (@zero ARnd) with 0 in *. change (T ARnd) with R in *.
   (* the right-hand part of a row: either the last row, or the two relations that involve the next unknown *)
@@ -242,6 +252,116 @@ Proof using u_range fsub_ok fmul_ok fdiv_ok.
     + exact (eq_trans (eq_sym Dy) E456).
     + exact (eq_trans Eb' E23).
     + exact R5.
+Qed.
+
+Theorem thomas_backward_error_lemma (t : tridiag ARnd) (r x : list ARnd) :
+  wfT t -> (1 <= tn t)%nat -> length r = tn t -> tsolve t r = Ok x ->
+  length x = tn t /\
+  exists gl : list R, length gl = tn t /\
+  forall i, (i < tn t)%nat -> exists ea eb ec eg,
+    Rabs ea <= 3 * u /\ Rabs eb <= 5 * u /\ Rabs ec <= 5 * u /\ Rabs eg <= 9 * u /\
+    nth i (0 :: tsub t) 0 * (1 + ea) * nth i (0 :: x) 0
+    + (nth i (tmain t) 0 * (1 + eb) + nth i (0 :: tsub t) 0 * nth i gl 0 * eg) * nth i x 0
+    + nth i (tsup t) 0 * (1 + ec) * nth (i + 1) x 0 = nth i r 0.
+Proof using u_range fsub_ok fmul_ok fdiv_ok.
+  intros W Hn Hr E.
+  destruct (thomas_trace_lemma t r W Hn Hr x E) as (bl & gl & yl & Lx & Lb & Lg & Ly & Rel & Vlast & Vback).
+  split; [exact Lx|]. exists gl. split; [exact Lg|].
+  now apply (backward_rows t r x bl gl yl).
+Qed.
+
+(* ---------- diagonally dominant systems: the computed multipliers are at most 1 in magnitude ---------- *)
+(* dominance with the margin the rounding needs:  (|sub_{i-1}| + |sup_i|)(1+u) <= |main_i|(1-u),  main_i /= 0 *)
+Definition dominant_u (t : tridiag ARnd) : Prop :=
+  forall i, (i < tn t)%nat ->
+    nth i (tmain t) 0 <> 0 /\
+    (Rabs (nth i (0 :: tsub t) 0) + Rabs (nth i (tsup t) 0)) * (1 + u) <= Rabs (nth i (tmain t) 0) * (1 - u).
+
+Lemma abs_one_plus d : Rabs d <= u -> 1 - u <= Rabs (1 + d) <= 1 + u.
+Proof using u_range.
+  intros H. assert (H' := pm1 u u_range d H). rewrite Rabs_right by lra. exact H'.
+Qed.
+
+Lemma multipliers_bounded (t : tridiag ARnd) (r bl gl yl : list ARnd) :
+  wfT t -> dominant_u t -> length bl = tn t -> fwd_rel t r (tn t) bl gl yl ->
+  forall k, (k < tn t)%nat ->
+    Rabs (nth k (tsup t) 0) * (1 + u) <= Rabs (nth k bl 0) /\ ((1 <= k)%nat -> Rabs (nth k gl 0) <= 1).
+Proof using u_range fsub_ok fmul_ok fdiv_ok.
+  intros W D Lb (B0 & Z0 & D0 & RelS). pose proof W as (Hm & Hs & Hp).
+  change (@zero ARnd) with 0 in *. change (T ARnd) with R in *.
+  induction k as [|k IH]; intros Hk.
+  - split; [|lia]. destruct (D 0%nat Hk) as (Nz & Dk). change (T ARnd) with R in *. cbn [nth] in Dk. rewrite Rabs_R0 in Dk.
+    replace (nth 0 bl 0) with (nth 0 (tmain t) 0) by (symmetry; exact B0).
+    pose proof (Rabs_pos (nth 0 (tmain t) 0)). pose proof (Rabs_pos (nth 0 (tsup t) 0)). change (T ARnd) with R in *; nra.
+  - destruct (IH ltac:(lia)) as (Qk & _).
+    destruct (RelS (S k) ltac:(lia)) as (Dg & Eb' & Zb & _). replace (S k - 1)%nat with k in * by lia.
+    cbn in Dg. injection Dg as Dg. cbn in Eb'.
+    assert (Hbk : nth k bl 0 <> 0).
+    { destruct k as [|k']; [apply eqb_false_nz; exact Z0|].
+      destruct (RelS (S k') ltac:(lia)) as (_ & _ & Zk & _). apply eqb_false_nz; exact Zk. }
+    (* |gamma_{k+1}| <= 1 *)
+    destruct (fdiv_ok (nth k (tsup t) 0) (nth k bl 0) Hbk) as (d1 & H1 & E1).
+    assert (Hg : Rabs (nth (S k) gl 0) <= 1).
+    { replace (nth (S k) gl 0) with (nth k (tsup t) 0 / nth k bl 0 * (1 + d1)) by (rewrite <- E1; exact Dg).
+      unfold Rdiv. rewrite !Rabs_mult, Rabs_inv.
+      pose proof (abs_one_plus d1 H1) as H1'. pose proof (Rabs_pos (nth k (tsup t) 0)) as Pc.
+      assert (Pb : 0 < Rabs (nth k bl 0)) by now apply Rabs_pos_lt.
+      assert (Pi : 0 < / Rabs (nth k bl 0)) by now apply Rinv_0_lt_compat.
+      apply (Rmult_le_reg_r (Rabs (nth k bl 0))); [exact Pb|].
+      replace (Rabs (nth k (tsup t) 0) * / Rabs (nth k bl 0) * Rabs (1 + d1) * Rabs (nth k bl 0))
+        with (Rabs (nth k (tsup t) 0) * Rabs (1 + d1)) by (change (T ARnd) with R; field; change (T ARnd) with R in *; lra).
+      change (T ARnd) with R in *; nra. }
+    split; [|intros _; exact Hg].
+    (* |beta_{k+1}| >= |sup_{k+1}| (1+u) *)
+    destruct (sub_mul_form (nth (S k) (tmain t) 0) (nth k (tsub t) 0) (nth (S k) gl 0)) as (d2 & d3 & H2 & H3 & E23).
+    replace (nth (S k) bl 0) with ((nth (S k) (tmain t) 0 - nth k (tsub t) 0 * nth (S k) gl 0 * (1 + d2)) * (1 + d3))
+      by (rewrite <- E23; symmetry; exact Eb').
+    destruct (D (S k) Hk) as (Nz & Dk). change (T ARnd) with R in *. cbn [nth] in Dk.
+    rewrite Rabs_mult.
+    pose proof (abs_one_plus d2 H2) as H2'. pose proof (abs_one_plus d3 H3) as H3'.
+    assert (Ht : Rabs (nth (S k) (tmain t) 0 - nth k (tsub t) 0 * nth (S k) gl 0 * (1 + d2))
+                 >= Rabs (nth (S k) (tmain t) 0) - Rabs (nth k (tsub t) 0) * (1 + u)).
+    { eapply Rge_trans; [apply Rle_ge, Rabs_triang_inv|]. rewrite !Rabs_mult.
+      pose proof (Rabs_pos (nth k (tsub t) 0)). pose proof (Rabs_pos (nth (S k) gl 0)).
+      change (T ARnd) with R in *.
+      assert (P1 : Rabs (nth (S k) gl 0) * Rabs (1 + d2) <= 1 + u) by nra.
+      nra. }
+    destruct H3' as (H3' & _).
+    apply (dom_step_alg u u_range (Rabs (nth (S k) (tmain t) 0)) (Rabs (nth k (tsub t) 0)) (Rabs (nth (S k) (tsup t) 0)));
+      [apply Rabs_pos|apply Rabs_pos|apply Rabs_pos|exact Dk|exact Ht|exact H3'].
+Qed.
+
+(* backward stability for diagonally dominant systems, standard model: (T + dT) x = r with
+   |da_i| <= 3u |a_i|,  |db_i| <= 5u |b_i| + 9u |a_i|,  |dc_i| <= 5u |c_i| *)
+Theorem thomas_dominant_backward_stable_lemma (t : tridiag ARnd) (r x : list ARnd) :
+  wfT t -> (1 <= tn t)%nat -> length r = tn t -> dominant_u t -> tsolve t r = Ok x ->
+  length x = tn t /\
+  forall i, (i < tn t)%nat -> exists da db dc,
+    Rabs da <= 3 * u * Rabs (nth i (0 :: tsub t) 0) /\
+    Rabs db <= 5 * u * Rabs (nth i (tmain t) 0) + 9 * u * Rabs (nth i (0 :: tsub t) 0) /\
+    Rabs dc <= 5 * u * Rabs (nth i (tsup t) 0) /\
+    (nth i (0 :: tsub t) 0 + da) * nth i (0 :: x) 0 + (nth i (tmain t) 0 + db) * nth i x 0
+    + (nth i (tsup t) 0 + dc) * nth (i + 1) x 0 = nth i r 0.
+Proof using u_range fsub_ok fmul_ok fdiv_ok.
+  intros W Hn Hr D E.
+  destruct (thomas_trace_lemma t r W Hn Hr x E) as (bl & gl & yl & Lx & Lb & Lg & Ly & Rel & Vlast & Vback).
+  split; [exact Lx|]. intros i Hi.
+  destruct (backward_rows t r x bl gl yl W Hn Hr Lx Lb Lg Ly Rel Vlast Vback i Hi)
+    as (ea & eb & ec & eg & Ha & Hb & Hc & Hg & Eq).
+  assert (Gi : Rabs (nth i (0 :: tsub t) 0 * nth i gl 0) <= Rabs (nth i (0 :: tsub t) 0)).
+  { destruct i as [|k].
+    - cbn [nth]. rewrite Rmult_0_l. lra.
+    - destruct (multipliers_bounded t r bl gl yl W D Lb Rel (S k) Hi) as (_ & G). specialize (G ltac:(lia)).
+      rewrite Rabs_mult. pose proof (Rabs_pos (nth (S k) (0 :: tsub t) 0)). change (T ARnd) with R in *; nra. }
+  exists (nth i (0 :: tsub t) 0 * ea), (nth i (tmain t) 0 * eb + nth i (0 :: tsub t) 0 * nth i gl 0 * eg),
+         (nth i (tsup t) 0 * ec).
+  split; [rewrite Rabs_mult; pose proof (Rabs_pos (nth i (0 :: tsub t) 0)); change (T ARnd) with R in *; nra|].
+  split.
+  { eapply Rle_trans; [apply Rabs_triang|]. rewrite (Rabs_mult _ eb), (Rabs_mult _ eg).
+    pose proof (Rabs_pos (nth i (tmain t) 0)). pose proof (Rabs_pos (nth i (0 :: tsub t) 0 * nth i gl 0)).
+    pose proof (Rabs_pos eb). pose proof (Rabs_pos eg). change (T ARnd) with R in *; nra. }
+  split; [rewrite Rabs_mult; pose proof (Rabs_pos (nth i (tsup t) 0)); change (T ARnd) with R in *; nra|].
+  rewrite <- Eq. ring.
 Qed.
 
 End Round.
